@@ -25,6 +25,7 @@ for d in seeded/*-$R/; do
     C10-m8) id="C10 C02";;          # not detected (admissible pages; DESIGN 10.11)
     C08-m8) id="C08";;              # needs the thorough tier (two restarts around a 100000-packet world): MUT_TIER=thorough
     C12-m8) id="C12";;
+    C11-m6|C11-m7|C11-m8) continue;;   # obsolete: all three drop "t.referencedBy = ot.referencedBy" for a tag deleted and added again during its job; since the definition-number fix the result of such a job is dropped as a whole (demo passes with the change)
     C09-m5) continue;;
   esac
   python3 lib/mutants.py run $n $id 2>&1 | grep -v KNOWN | cut -c1-240 >> $OUT.tmp
